@@ -45,6 +45,15 @@ def run(chk):
         tl_ = ("unicode.dis," if r.chance(0.7) else "") + str(tf)
         lists.append((tl_, True))
         alph[tl_] = letters + [32]
+    # generated tables with capitals and emphasis indicators
+    for i in range(20 if quick else 300):
+        r = rng.fork(("emph", i))
+        text, al = tablegen.gen_emphasis_table(r)
+        tf = work / ("e%d.utb" % i)
+        tf.write_text(text)
+        tl_ = "unicode.dis," + str(tf)
+        lists.append((tl_, True))
+        alph[tl_] = al
     (work / "broken.utb").write_text("letter a 1\nnosuchopcode b 2\n")
     lists.append((str(work / "broken.utb"), False))
     lists.append(("no-such-table-anywhere.ctb", False))
@@ -72,7 +81,9 @@ def run(chk):
             outlen = generous if k < 6 else r.choice([r.range(0, inlen + 2), inlen, 2 * inlen])
             if k == 9:
                 inlen, outlen = r.choice([(-1, 10), (3, -1)])
-            lines.append(trans.case_line(fn, mode, inp, outlen, inlen=inlen, presence=r.choice([0, 12, 2])))
+            pres = r.choice([0, 12, 2, 1, 13])
+            lines.append(trans.case_line(fn, mode, inp, outlen, inlen=inlen, presence=pres,
+                                         typeform=safety.gen_typeform(r, len(inp)) if pres & 1 and fn != "B" else None))
             meta.append((fn, mode, inp, inlen, outlen, generous))
         # poison and probe: a long homogeneous input, then shorter inputs that end inside a run of the same character. Whatever
         # reads behind the end of a pass input (the caller's array is exactly sized; the internal pass buffers keep what the
